@@ -47,9 +47,132 @@ KERNELS += [
                 (r"(?<![\w_])(min_ring_difference|max_ring_difference|num_rings_per_segment)\[([^\]]*)\]", r"IN_\1(\2)", 3)]),
 ]
 
+
+PDM = "src/buildblock/ProjDataInMemory.cxx"
+# Bin(segment_num, view_num, axial_pos_num, tangential_pos_num, timing_pos_num) -- argument order as declared in stir/Bin.h (static fact below)
+BINCTOR = (r"(?:const )?Bin bin\(([^,;]+),\s*([^,;]+),\s*([^,;]+),\s*([^,;]+),\s*([^,;]+?)\);",
+           r"struct Bin bin; bin.segment_num = \1; bin.view_num = \2; bin.axial_pos_num = \3; bin.tangential_pos_num = \4; bin.timing_pos_num = \5;", 1)
+def PATHRULES(n_ax, n_view, n_binax, n_succ):
+    r = [BINCTOR]
+    if n_ax:
+        r.append((r"(?:this->)?get_(min|max)_axial_pos_num\(segment_num\)", r"K_seg_at(self->\1_ax, self, segment_num)", n_ax))
+    if n_view:
+        r.append((r"this->get_min_view_num\(\)", "self->min_view", n_view))
+    r.append((r"this->get_min_tangential_pos_num\(\)", "self->min_tang", 1))
+    if n_binax:
+        r.append((r"bin\.axial_pos_num\(\)", "bin.axial_pos_num", n_binax))
+    if n_succ:
+        r.append((r"Succeeded::yes", "1", n_succ))
+    return r
+
+
+KERNELS += [
+    dict(name="K_pdm_set_viewgram", file=PDM, cxx_name="ProjDataInMemory::set_viewgram (from 'const int segment_num = v.get_segment_num();')",
+         func=r"ProjDataInMemory::set_viewgram\(const Viewgram<float>& v\)", span=(r"const int segment_num = v\.get_segment_num\(\);", r"return Succeeded::yes;"),
+         c_header="int K_pdm_set_viewgram(const struct PD* self, const int v_segment_num, const int v_view_num, const int v_timing_pos_num)", loops=1,
+         rules=[(r"v\.get_(segment|view|timing_pos)_num\(\)", r"v_\1_num", 3),
+                (r"detail::copy_data_to_buffer\(this->buffer, v\[bin\.axial_pos_num\(\)\], this->get_index\(bin\)\);",
+                 "{ const long K_o = K_pdm_get_index(self, &bin); K_RETURN_IF_ERROR(0); BUF_ROW_TO(self, K_o, bin.axial_pos_num, bin.view_num); }", 1)] + PATHRULES(3, 0, 3, 1)),
+    dict(name="K_pdm_get_viewgram", file=PDM, cxx_name="ProjDataInMemory::get_viewgram (up to the optional extra tangential position)",
+         func=r"ProjDataInMemory::get_viewgram\(const int view_num,\s*const int segment_num,\s*const bool make_num_tangential_poss_odd,\s*const int timing_pos\) const",
+         span=(r"Bin bin\(segment_num, view_num,", r"this->get_index\(bin\)\);\s*\}"),
+         c_header="void K_pdm_get_viewgram(const struct PD* self, const int view_num, const int segment_num, const int timing_pos)", loops=1,
+         rules=[(r"Viewgram<float> viewgram\(proj_data_info_sptr, bin\);", "", 1),
+                (r"detail::copy_data_from_buffer\(this->buffer, viewgram\[bin\.axial_pos_num\(\)\], this->get_index\(bin\)\);",
+                 "{ const long K_o = K_pdm_get_index(self, &bin); K_RETURN_IF_ERROR(); BUF_ROW_FROM(self, K_o, bin.axial_pos_num, bin.view_num); }", 1)] + PATHRULES(3, 0, 3, 0)),
+    dict(name="K_pdm_set_sinogram", file=PDM, cxx_name="ProjDataInMemory::set_sinogram (from 'int segment_num = s.get_segment_num();')",
+         func=r"ProjDataInMemory::set_sinogram\(const Sinogram<float>& s\)", span=(r"int segment_num = s\.get_segment_num\(\);", r"return Succeeded::yes;"),
+         c_header="int K_pdm_set_sinogram(const struct PD* self, const int s_segment_num, const int s_axial_pos_num, const int s_timing_pos_num)", loops=0,
+         rules=[(r"s\.get_(segment|axial_pos|timing_pos)_num\(\)", r"s_\1_num", 3),
+                (r"detail::copy_data_to_buffer\(this->buffer, s, this->get_index\(bin\)\);",
+                 "{ const long K_o = K_pdm_get_index(self, &bin); K_RETURN_IF_ERROR(0); BUF_SINO_TO(self, K_o, bin.axial_pos_num); }", 1)] + PATHRULES(0, 1, 0, 1)),
+    dict(name="K_pdm_get_sinogram", file=PDM, cxx_name="ProjDataInMemory::get_sinogram (up to the optional extra tangential position)",
+         func=r"ProjDataInMemory::get_sinogram\(const int ax_pos_num,\s*const int segment_num,\s*const bool make_num_tangential_poss_odd,\s*const int timing_pos\) const",
+         span=(r"Sinogram<float> sinogram\(proj_data_info_sptr, ax_pos_num, segment_num, timing_pos\);", r"this->get_index\(bin\)\);"),
+         c_header="void K_pdm_get_sinogram(const struct PD* self, const int ax_pos_num, const int segment_num, const int timing_pos)", loops=0,
+         rules=[(r"Sinogram<float> sinogram\(proj_data_info_sptr, ax_pos_num, segment_num, timing_pos\);", "", 1),
+                (r"detail::copy_data_from_buffer\(this->buffer, sinogram, this->get_index\(bin\)\);",
+                 "{ const long K_o = K_pdm_get_index(self, &bin); K_RETURN_IF_ERROR(); BUF_SINO_FROM(self, K_o, bin.axial_pos_num); }", 1)] + PATHRULES(0, 1, 0, 0)),
+]
+
+
+PDS = "src/buildblock/ProjDataFromStream.cxx"
+WARN = (r'\bwarning\((?:"[^"]*"|[^;"])*\);', "(void)0;", None)
+
+
+def PDS_RULES(obj, n_err, seeks, writes, flushes, in_try):
+    """rules shared by the ProjDataFromStream write kernels. obj: name of the written object in the C++ text;
+    seeks/writes/flushes: expected counts (so a dropped flush or seek is an extraction miss only if the count changes -
+    the contract decides whether the remaining ones suffice: counts are given as ranges)"""
+    prop = "if (g_error) goto K_catch;" if in_try else "K_PROPAGATE_OR_RETURN();"
+    r = [WARN,
+         (r'\berror\((?:"[^"]*"|[^;"])*\);', "K_THROW(0);" if in_try else "K_THROW();", n_err),
+         (r"is_null_ptr\(sino_stream\)", "K_IS_NULL_STREAM", (0, 1)), (r"!\*sino_stream", "K_BAD_STREAM", (0, 1)),
+         (r"on_disk_data_type\.id != NumericType::FLOAT", "g_nonfloat", (0, 1)),
+         (r"detail::checked_seekp\(\"\w+\", \*sino_stream, get_offset\((\w+)\)\);",
+          r"{ const long K_o = K_pds_get_offset(self, &\1); %s K_seekp(K_o); %s }" % (prop, prop), seeks),
+         (r"sino_stream->flush\(\);", "K_flush();", flushes),
+         (r"get_storage_order\(\)", "self->storage_order", None),
+         (r"(?<![\w.>])scale_factor\b", "g_scale_factor", None),
+         (r"Succeeded succeeded = Succeeded::yes;", "int succeeded = 1;", (0, 1)),
+         (r"Succeeded::yes", "1", None), (r"Succeeded::no", "0", None),
+         (r"\btry\b", "", (1, 1) if in_try else (0, 0)),
+         (r"catch \(\.\.\.\)\s*\{\s*succeeded = 0;\s*\}", "K_catch: if (g_error) { g_error = 0; succeeded = 0; }", (1, 1) if in_try else (0, 0))]
+    return r
+
+
+def WRITE(obj_re, shape, ax, vw, tg, n):
+    return (r"write_data\(\*sino_stream, %s, on_disk_data_type, scale, on_disk_byte_order\)" % obj_re,
+            "K_write_data(self, &scale, %d, bin.segment_num, %s, %s, %s)" % (shape, ax, vw, tg), n)
+
+
+KERNELS += [
+    dict(name="K_pds_set_bin_value", file=PDS, cxx_name="ProjDataFromStream::set_bin_value",
+         func=r"ProjDataFromStream::set_bin_value\(const Bin& this_bin\)", c_header="void K_pds_set_bin_value(const struct PD* self, const struct Bin* this_bin)", loops=0,
+         rules=[(r"Array<1, float> value\(1\);\s*value\[0\] = this_bin\.get_bin_value\(\);", "", 1), (r"float\(1\)", "1.F", 1),
+                (r"write_data\(\*sino_stream, value, on_disk_data_type, scale, on_disk_byte_order\)",
+                 "K_write_data(self, &scale, 0, this_bin->segment_num, this_bin->axial_pos_num, this_bin->view_num, this_bin->tangential_pos_num)", 1),
+]
+         + PDS_RULES("value", (3, 5), 1, 1, (0, 2), False)
+         + [(r"K_pds_get_offset\(self, &this_bin\)", "K_pds_get_offset(self, this_bin)", 1)]),
+    dict(name="K_pds_set_viewgram", file=PDS, cxx_name="ProjDataFromStream::set_viewgram (from 'const int segment_num = v.get_segment_num();')",
+         func=r"ProjDataFromStream::set_viewgram\(const Viewgram<float>& v\)", span=(r"const int segment_num = v\.get_segment_num\(\);", r"return succeeded;"),
+         c_header="int K_pds_set_viewgram(const struct PD* self, const int v_segment_num, const int v_view_num, const int v_timing_pos_num)", loops=1,
+         rules=[(r"v\.get_(segment|view|timing_pos)_num\(\)", r"v_\1_num", 3),
+                WRITE(r"v\[bin\.axial_pos_num\(\)\]", 1, "bin.axial_pos_num", "bin.view_num", "0", 1), WRITE("v", 2, "0", "bin.view_num", "0", 1)]
+         + PDS_RULES("v", (1, 2), 2, 2, (1, 3), True) + PATHRULES(3, 0, 3, 0)
+         + [(r",\s*view_num,\s*segment_num,\s*timing_pos\);", ");", None)]),
+    dict(name="K_pds_set_segment_by_sinogram", file=PDS, cxx_name="ProjDataFromStream::set_segment(const SegmentBySinogram<float>&) (from 'const int segment_num = ...')",
+         func=r"ProjDataFromStream::set_segment\(const SegmentBySinogram<float>& segmentbysinogram_v\)",
+         span=(r"const int segment_num = segmentbysinogram_v\.get_segment_num\(\);", r"return set_segment\(segmentbyview\);\s*\}"),
+         c_header="int K_pds_set_segment_by_sinogram(const struct PD* self, const int v_segment_num, const int v_timing_pos_num)", loops=0,
+         rules=[(r"segmentbysinogram_v\.get_(segment|timing_pos)_num\(\)", r"v_\1_num", (2, 3)), WRITE("segmentbysinogram_v", 4, "0", "0", "0", 1),
+                (r"const SegmentByView<float> segmentbyview = SegmentByView<float>\(segmentbysinogram_v\);", "", 1),
+                (r"return set_segment\(segmentbyview\);", "return K_pds_set_segment_by_view(self, v_segment_num, v_timing_pos_num);", 1)]
+         + PDS_RULES("v", 0, 1, 1, (1, 2), True) + PATHRULES(1, 1, 0, 0)
+         + [(r",\s*segment_num,\s*v_timing_pos_num\);", ");", None)]),
+    dict(name="K_pds_set_segment_by_view", file=PDS, cxx_name="ProjDataFromStream::set_segment(const SegmentByView<float>&) (from 'const int segment_num = ...')",
+         func=r"ProjDataFromStream::set_segment\(const SegmentByView<float>& segmentbyview_v\)",
+         span=(r"const int segment_num = segmentbyview_v\.get_segment_num\(\);", r"return set_segment\(segmentbysinogram\);\s*\}"),
+         c_header="int K_pds_set_segment_by_view(const struct PD* self, const int v_segment_num, const int v_timing_pos_num)", loops=0,
+         rules=[(r"segmentbyview_v\.get_(segment|timing_pos)_num\(\)", r"v_\1_num", (2, 3)), WRITE("segmentbyview_v", 5, "0", "0", "0", 1),
+                (r"const SegmentBySinogram<float> segmentbysinogram = SegmentBySinogram<float>\(segmentbyview_v\);", "", 1),
+                (r"return set_segment\(segmentbysinogram\);", "return K_pds_set_segment_by_sinogram(self, v_segment_num, v_timing_pos_num);", 1)]
+         + PDS_RULES("v", 0, 1, 1, (1, 2), True) + PATHRULES(1, 1, 0, 0)
+         + [(r",\s*segment_num,\s*v_timing_pos_num\);", ");", None)]),
+    dict(name="K_pds_set_sinogram", file=PDS, cxx_name="ProjDataFromStream::set_sinogram (from 'int segment_num = s.get_segment_num();')",
+         func=r"ProjDataFromStream::set_sinogram\(const Sinogram<float>& s\)", span=(r"int segment_num = s\.get_segment_num\(\);", r"return succeeded;"),
+         c_header="int K_pds_set_sinogram(const struct PD* self, const int s_segment_num, const int s_axial_pos_num, const int s_timing_pos_num)", loops=1,
+         rules=[(r"s\.get_(segment|axial_pos|timing_pos)_num\(\)", r"s_\1_num", 3),
+                WRITE(r"s\[bin\.view_num\(\)\]", 1, "bin.axial_pos_num", "bin.view_num", "0", 1), WRITE("s", 3, "bin.axial_pos_num", "0", "0", 1),
+                (r"bin\.view_num\(\)", "bin.view_num", 3), (r"(?<![\w>.])get_(min|max)_view_num\(\)", r"self->\1_view", 2)]
+         + PDS_RULES("s", 0, 2, 2, (1, 3), True) + PATHRULES(0, 1, 0, 0)),
+]
+
 CHK = ["--signed-overflow-check", "--div-by-zero-check", "--bounds-check", "--pointer-check", "--conversion-check"]
 VT = {"quick": [(1, 2), (3, 5), (4, 4), (8, 16)],
       "thorough": [(v, t) for v in range(1, 9) for t in range(1, 9)] + [(8, 16), (16, 8), (12, 20), (32, 64), (96, 128)]}
+PATH_VT = {"quick": [(3, 5)], "thorough": [(1, 1), (2, 3), (3, 5), (4, 4), (7, 9), (8, 16)]}
 LEMMA_VT = {"quick": [(1, 1), (3, 5), (7, 9), (8, 16), (96, 128)],
             "thorough": [(1, 1), (2, 3), (3, 5), (7, 9), (8, 16), (12, 20), (96, 128), (160, 192), (252, 344)]}
 # the view-order offset lemma contains view * (axial positions of the segment), a product of two symbolic numbers:
@@ -83,6 +206,18 @@ def jobs(tier, gen_dir):
             d2["C02_E"] = E
             J("K_pds_get_offset/V=%d/T=%d/E=%d" % (V, T, E), "h_K_pds_get_offset", enforce="K_pds_get_offset", repl=["K_find_int"], lc=True, defs=d2,
               kernels=["K_pds_get_offset"], params={"num_views": V, "num_tangential_poss": T, "bytes_per_element": E}, shards=SH)
+    for V, T in PATH_VT[tier]:
+        d = {"C02_V": V, "C02_T": T}
+        for k, lc in (("K_pdm_set_viewgram", True), ("K_pdm_get_viewgram", True), ("K_pdm_set_sinogram", False), ("K_pdm_get_sinogram", False)):
+            J("%s/V=%d/T=%d" % (k, V, T), "h_" + k, enforce=k, repl=["K_pdm_get_index"], lc=lc, defs=d, kernels=[k], params={"num_views": V, "num_tangential_poss": T}, shards=SH + 2,
+              timeout=900 if tier == "quick" else 2400)
+    for V, T in PATH_VT[tier]:
+        for E in ([4] if tier == "quick" else [1, 2, 4]):
+            d = {"C02_V": V, "C02_T": T, "C02_E": E}
+            for k, lc, rp in (("K_pds_set_bin_value", False, []), ("K_pds_set_viewgram", True, []), ("K_pds_set_sinogram", True, []),
+                              ("K_pds_set_segment_by_sinogram", False, ["K_pds_set_segment_by_view"]), ("K_pds_set_segment_by_view", False, ["K_pds_set_segment_by_sinogram"])):
+                J("%s/V=%d/T=%d/E=%d" % (k, V, T, E), "h_" + k, enforce=k, repl=["K_pds_get_offset"] + rp, lc=lc, defs=d, kernels=[k],
+                  params={"num_views": V, "num_tangential_poss": T, "bytes_per_element": E}, shards=SH + 2, timeout=900 if tier == "quick" else 2400)
     for V, T in LEMMA_VT[tier]:
         d = {"C02_V": V, "C02_T": T, "C02_E": 4}
         J("lemma_index_injective/V=%d/T=%d" % (V, T), "h_lemma_index_injective", kind="lemma", defs=d, params={"num_views": V, "num_tangential_poss": T},
@@ -98,6 +233,14 @@ def jobs(tier, gen_dir):
         out.append(Job("c02/canary/" + k, HARNESS, "h_" + k, enforce=k, replace=["K_find_int"], kernels=[k], kind="canary", loop_contracts=True,
                        defines={"CANARY_" + k: None, "C02_V": 2, "C02_T": 2, "C02_E": 2}, expect_fail=r"%s\.postcondition" % k, no_base_flags=True, timeout=300, object_bits=10,
                        backend="kissat"))
+    # vacuity canaries of the access-path kernels (their preconditions must be satisfiable)
+    for k, rp in (("K_pdm_set_viewgram", ["K_pdm_get_index"]), ("K_pdm_get_viewgram", ["K_pdm_get_index"]), ("K_pdm_set_sinogram", ["K_pdm_get_index"]),
+                  ("K_pdm_get_sinogram", ["K_pdm_get_index"]), ("K_pds_set_bin_value", ["K_pds_get_offset"]), ("K_pds_set_viewgram", ["K_pds_get_offset"]),
+                  ("K_pds_set_sinogram", ["K_pds_get_offset"]), ("K_pds_set_segment_by_sinogram", ["K_pds_get_offset", "K_pds_set_segment_by_view"]),
+                  ("K_pds_set_segment_by_view", ["K_pds_get_offset", "K_pds_set_segment_by_sinogram"])):
+        out.append(Job("c02/canary/" + k, HARNESS, "h_" + k, enforce=k, replace=rp, kernels=[k], kind="canary", loop_contracts=True,
+                       defines={"CANARY_" + k: None, "C02_V": 2, "C02_T": 2, "C02_E": 2}, expect_fail=r"%s\.postcondition" % k, no_base_flags=True, timeout=600, object_bits=10,
+                       backend="kissat"))
     return out
 
 
@@ -108,8 +251,18 @@ TRUSTED = [
 ]
 ASSUMPTIONS = ["parametric: numbers of views and tangential positions and the element size are constants per job; at most 8 segments and 8 TOF bins; "
                "axial positions per segment |.| < 4096; stream offset < 2^40"]
-UNDECIDED_CLAUSES = ["on-disk numeric type / byte order conversion, Interfile header round trip, flush visibility to a second reader, RelatedViewgrams paths",
-                     "the get_/set_ viewgram / sinogram / segment paths themselves (they address rows through get_index / get_offset)"]
+UNDECIDED_CLAUSES = ["on-disk numeric type / byte order conversion (write_data/read_data are stubs: 'a block of n elements at the put position'), Interfile header "
+                     "round trip beyond find_segment_sequence, RelatedViewgrams / bulk fill paths (they loop over set_viewgram)",
+                     "ProjDataFromStream read paths (get_viewgram / get_sinogram / get_segment_*), ProjDataInMemory segment paths",
+                     "order of the elements inside the single block written by set_segment(SegmentByView) in view order (symbolic number of axial positions as a radix)",
+                     "that a flushed std::fstream is visible to a second reader (operating system / libstdc++ behaviour; exercised by c02_replay visible)"]
+TRUSTED += [
+    "stream projection for the ProjDataFromStream write kernels: checked_seekp sets the put position or throws, write_data writes its block at the put position, "
+    "may fail and may change 'scale', sino_stream->flush() makes everything written so far visible (ghosts g_seek, g_dirty)",
+    "try/catch(...) rewritten to a forward goto taken when a call inside the try block reported an error (counted extraction rules)",
+    "SegmentByView(SegmentBySinogram) / SegmentBySinogram(SegmentByView) conversion constructors keep the values (set_segment for the other storage order)",
+    "Viewgram / Sinogram objects passed to set_* carry index values inside the ranges of the projection data (established by their constructors)",
+]
 
 
 def param_summary(tier):
@@ -128,9 +281,9 @@ def replay(job, o, workroot, repo):
         if not exe:
             return {"status": "unavailable", "detail": "replay driver did not build: " + info}
     os.environ.setdefault("STIR_CONFIG_DIR", os.path.join(repo, "src/config"))
-    modes = [["header", workroot]] if "fss" in job.name else []
-    for mode in modes + [["range"], ["paths"]] + ([] if modes else [["header", workroot]]):
+    modes = [["header", workroot]] if "fss" in job.name else [["visible", workroot]] if "K_pds_set" in job.name else []
+    for mode in modes + [["range"], ["paths"]] + ([] if "fss" in job.name else [["header", workroot]]) + ([] if "K_pds_set" in job.name else [["visible", workroot]]):
         st, detail = native.run(exe, mode, timeout=900)
         if st == "confirmed":
             return {"status": "confirmed", "detail": detail, "command": "c02_replay " + " ".join(mode), "from_verifier_counterexample": False}
-    return {"status": "not-reproduced", "detail": "c02_replay range; c02_replay paths (in-memory, stream with permuted segment sequence, both storage orders)"}
+    return {"status": "not-reproduced", "detail": "c02_replay range; c02_replay paths (in-memory, stream with permuted segment sequence, both storage orders); c02_replay header; c02_replay visible (file-backed, second reader after every write call)"}
